@@ -651,6 +651,10 @@ func UnpackRRWithHeader(h RR_Header, msg []byte, off int) (rr RR, off1 int, err 
 		return rr, off, nil
 	}
 
+	// The unpack functions take the end of msg for the end of the rdata
+	// (UnpackRR hands them msg cut there as well).
+	msg = msg[:end]
+
 	off, err = rr.unpack(msg, off)
 	if err != nil {
 		return nil, end, err
